@@ -1,20 +1,37 @@
 """Translator A for C11 / C12: the LISTING SKELETON of the template writer (DESIGN.md 2.3 A).
 
-For a fixed list of listing / link producers the AST of the CURRENT /repo source is reduced to
-    (iteration domain, is there an `isVisible` guard, is there a `' ' not in name` guard)
-and for the markers / link builder to booleans (does css_class add `private`, does taglink drop the href of a
-target that is not visible, ...).  The functions that Model/Site.v mirrors by hand (Documentable.url,
-page_object, isVisible, isPrivate, Module.privacyClass) are PINNED: their normalised source (ast.unparse of the
-body without docstring) must equal the text recorded here.
+Two kinds of facts are read from the CURRENT /repo and written to Gen/Listings.v (table_now : table):
 
-Fail-closed: a target that cannot be found, an iteration source or a guard atom outside the closed set of recognised
-shapes, or a pinned function whose text changed raises ValueError('unrecognised shape ...') and the run is reported.
+(1) STATIC, from the AST, for every listing / link producer: which collection is iterated and which guards every
+    emitted element has passed:  (iteration domain, `isVisible` guard present, `' ' not in name` guard present).
+    The MEANING is extracted, not the source text:
+      * an element stream is followed through comprehensions, generator expressions, sorted()/list()/tuple()/reversed(),
+        local variables, lists built by a loop with .append (then .sort()), and calls into helper functions / methods of
+        pydoctor itself (util.visible_objects(system), Module.submodules(), System.objectsOfType, ...), whose bodies are
+        analysed the same way;
+      * inside a loop the guards are the PATH CONDITION of the statements that use the element: `if c: continue/return`
+        guard clauses, nested `if c:` blocks, conjunctions, early returns and derived locals (`o = allobjects.get(name)`)
+        are normalised away; only atoms about visibility / the ' ' test matter, any other conjunct merely narrows;
+      * a disjunction that mentions isVisible in a shape that is not understood is rejected (fail-closed).
 
-Output: Gen/Listings.v  (Definition table_now : table := {| ... |}) over the types of Model/SiteTable.v."""
+(2) BEHAVIOURAL, by running the LIVE functions on small fixture systems built with the real System / builder and
+    comparing them with a reference implementation of what Model/Site.v mirrors by hand:
+    Documentable.fullName / privacyClass (Module's `__main__` rule) / isVisible / isPrivate / page_object / url,
+    linker.taglink (every object x context x label; whether the href of a hidden target is dropped is MEASURED),
+    util.css_class, TableRow / FunctionChild / AttributeChild / ContentItem class_ renderers (the private markers,
+    own and inherited rows), summary.moduleSummary (marker, normal and compact form, the > 50 threshold),
+    the `privacy` field of search documents, System.objectsOfType, util.nested_bases / class_members /
+    inherited_members, the anchor renderers of FunctionChild / AttributeChild.
+    Any refactoring that keeps the behaviour on the fixtures passes; a live function that cannot be run on the
+    fixtures, or whose results are inconsistent (neither "always" nor "never"), aborts the generation.
+
+Fail-closed: a producer that cannot be found, an iteration source or a visibility guard that cannot be interpreted, or
+a behavioural difference raises Shape('unrecognised shape ...') and the run is reported."""
 from __future__ import annotations
 import ast, importlib, inspect, os
 from pathlib import Path
-from typing import Any, Dict, List, Optional, Tuple
+from typing import Any, Dict, List, Optional, Set, Tuple
+from urllib.parse import quote as _quote
 
 REPO = Path(os.environ.get('PYTHONPATH', '/repo').split(':')[0])
 
@@ -28,14 +45,15 @@ def bad(msg: str, node: Optional[ast.AST] = None, where: str = '') -> Shape:
     return Shape('unrecognised shape: %s%s' % (msg, loc))
 
 
+# =============================================================================== source access
 _trees: Dict[str, ast.Module] = {}
 
 
 def tree_of(modname: str) -> ast.Module:
     if modname not in _trees:
         mod = importlib.import_module(modname)
-        f = Path(inspect.getsourcefile(mod))
-        if REPO not in f.resolve().parents:
+        f = Path(inspect.getsourcefile(mod))  # type: ignore
+        if REPO.resolve() not in f.resolve().parents:
             raise Shape('module %s is not loaded from %s but from %s' % (modname, REPO, f))
         _trees[modname] = ast.parse(f.read_text(encoding='utf-8'))
     return _trees[modname]
@@ -57,407 +75,808 @@ def find_def(modname: str, qualname: str) -> ast.FunctionDef:
     return node
 
 
-def body_text(fn: ast.FunctionDef) -> str:
-    body = fn.body
-    if body and isinstance(body[0], ast.Expr) and isinstance(body[0].value, ast.Constant) and isinstance(body[0].value.value, str):
-        body = body[1:]
-    return ast.unparse(ast.Module(body=body, type_ignores=[]))
+def defs_named(modname: str, name: str) -> List[Tuple[str, ast.FunctionDef]]:
+    """every function / method called `name` in the module (qualified name, node)"""
+    out = []
+
+    def walk(body: List[ast.stmt], prefix: str) -> None:
+        for st in body:
+            if isinstance(st, (ast.FunctionDef, ast.AsyncFunctionDef)) and st.name == name:
+                out.append((prefix + st.name, st))
+            elif isinstance(st, ast.ClassDef):
+                walk(st.body, prefix + st.name + '.')
+    walk(tree_of(modname).body, '')
+    return out
 
 
-# ------------------------------------------------------------------------------- iteration domains
-def domain_of(it: ast.expr, where: str) -> str:
-    """Closed set of iteration sources."""
-    s = ast.unparse(it)
-    if isinstance(it, ast.Call) and isinstance(it.func, ast.Attribute) and it.func.attr == 'values' and not it.args:
-        inner = it.func.value
-        if isinstance(inner, ast.Attribute) and inner.attr == 'contents':
-            return 'DContents'
-        if isinstance(inner, ast.Attribute) and inner.attr == 'allobjects':
-            return 'DAllobjects'
-    if isinstance(it, ast.Attribute) and it.attr == 'rootobjects':
-        return 'DRootobjects'
-    if isinstance(it, ast.Attribute) and it.attr == 'subclasses':
-        return 'DSubclasses'
-    if isinstance(it, ast.Call) and isinstance(it.func, ast.Attribute) and it.func.attr == 'objectsOfType' \
-            and len(it.args) == 1 and ast.unparse(it.args[0]) in ('model.Class', 'Class'):
-        return 'DAllobjects'        # System.objectsOfType iterates allobjects.values() (pinned below)
-    if s == 'util.inherited_members(self.ob)':
-        return 'DInherited'
-    if s == 'self.children':
-        return 'DGiven'
-    if s in ('lst', 'subjects'):
-        return 'DGiven'
-    raise bad('iteration source %r' % s, it, where)
+def module_aliases(modname: str) -> Dict[str, str]:
+    """local name -> pydoctor module it is bound to by an import of the module"""
+    res: Dict[str, str] = {}
+    for st in ast.walk(tree_of(modname)):
+        if isinstance(st, ast.ImportFrom) and st.module and st.module.startswith('pydoctor') and st.level == 0:
+            for a in st.names:
+                full = st.module + '.' + a.name
+                try:
+                    importlib.import_module(full)
+                    res[a.asname or a.name] = full
+                except Exception:
+                    res.setdefault(a.asname or a.name, st.module + ':' + a.name)   # an object of that module
+        elif isinstance(st, ast.Import):
+            for a in st.names:
+                if a.name.startswith('pydoctor'):
+                    res[a.asname or a.name.split('.')[0]] = a.name if a.asname else a.name.split('.')[0]
+    return res
 
 
-def atoms_of(cond: Optional[ast.expr], var: str, where: str, negated: bool = False) -> Tuple[bool, bool]:
-    """cond is the KEEP condition (negated=False) or the SKIP condition (negated=True, `if skip: continue`).
-    Returns (visible guard present, no-space guard present).  Other atoms only narrow further and must come from
-    the closed list below."""
-    if cond is None:
+# =============================================================================== element streams
+class Stream:
+    """what is known about the elements of an iterable: the collection they come from and the guards they passed"""
+    def __init__(self, domain: str, vis: bool = False, nospace: bool = False, why: str = ''):
+        self.domain, self.vis, self.nospace, self.why = domain, vis, nospace, why
+
+    def plus(self, vis: bool, nospace: bool) -> 'Stream':
+        return Stream(self.domain, self.vis or vis, self.nospace or nospace, self.why)
+
+    def triple(self) -> Tuple[str, bool, bool]:
+        return (self.domain, self.vis, self.nospace)
+
+
+HELPER_MODULES = ['pydoctor.model', 'pydoctor.templatewriter.util', 'pydoctor.templatewriter.summary',
+                  'pydoctor.templatewriter.pages', 'pydoctor.templatewriter.search']
+VIS_WORDS = ('isVisible', 'privacyClass', 'isPrivate', 'HIDDEN')
+
+
+class Fn:
+    """analysis context of one function"""
+    def __init__(self, modname: str, qual: str, node: Optional[ast.FunctionDef] = None, depth: int = 0):
+        self.modname, self.qual = modname, qual
+        self.node = node if node is not None else find_def(modname, qual)
+        self.where = '%s.%s' % (modname.split('.')[-1], qual)
+        self.depth = depth
+        a = self.node.args
+        self.params = [x.arg for x in a.posonlyargs + a.args + a.kwonlyargs]
+
+    # ---------------------------------------------------------------- guards
+    def aliases_of(self, var: str, scope: List[ast.stmt]) -> Set[str]:
+        """var and the locals derived from it by a plain assignment (`o = system.allobjects.get(name)`)"""
+        names = {var}
+        changed = True
+        while changed:
+            changed = False
+            for st in scope:
+                for sub in ast.walk(st):
+                    if isinstance(sub, ast.Assign) and len(sub.targets) == 1 and isinstance(sub.targets[0], ast.Name):
+                        t = sub.targets[0].id
+                        if t not in names and any(isinstance(n, ast.Name) and n.id in names for n in ast.walk(sub.value)):
+                            # a derived OBJECT (lookup by name / attribute), not a derived collection
+                            if not isinstance(sub.value, (ast.ListComp, ast.GeneratorExp, ast.SetComp, ast.DictComp, ast.List)):
+                                names.add(t)
+                                changed = True
+        return names
+
+    def keep_atoms(self, cond: ast.expr, names: Set[str]) -> Tuple[bool, bool]:
+        """guards established when `cond` is TRUE"""
+        if isinstance(cond, ast.BoolOp) and isinstance(cond.op, ast.And):
+            v = s = False
+            for p in cond.values:
+                a, b = self.keep_atoms(p, names)
+                v, s = v or a, s or b
+            return (v, s)
+        if isinstance(cond, ast.UnaryOp) and isinstance(cond.op, ast.Not):
+            return self.skip_atoms(cond.operand, names)
+        txt = ast.unparse(cond)
+        # x.isVisible
+        if isinstance(cond, ast.Attribute) and cond.attr == 'isVisible' and isinstance(cond.value, ast.Name) and cond.value.id in names:
+            return (True, False)
+        # x is None or x.isVisible   (names that are not objects are kept as plain text)
+        if isinstance(cond, ast.BoolOp) and isinstance(cond.op, ast.Or) and len(cond.values) == 2:
+            a, b = cond.values
+            for p, q in ((a, b), (b, a)):
+                if isinstance(p, ast.Compare) and len(p.ops) == 1 and isinstance(p.ops[0], ast.Is) \
+                        and isinstance(p.left, ast.Name) and p.left.id in names \
+                        and isinstance(p.comparators[0], ast.Constant) and p.comparators[0].value is None \
+                        and isinstance(q, ast.Attribute) and q.attr == 'isVisible' and isinstance(q.value, ast.Name) \
+                        and q.value.id == p.left.id:
+                    return (True, False)
+        # ' ' not in x.name / x.fullName()
+        if isinstance(cond, ast.Compare) and len(cond.ops) == 1 and isinstance(cond.ops[0], ast.NotIn) \
+                and isinstance(cond.left, ast.Constant) and cond.left.value == ' ' and self.is_name_of(cond.comparators[0], names):
+            return (False, True)
+        if isinstance(cond, ast.Compare) and len(cond.ops) == 1 and isinstance(cond.ops[0], ast.Is) \
+                and ast.unparse(cond.comparators[0]) in ('True',) and isinstance(cond.left, ast.Attribute) \
+                and cond.left.attr == 'isVisible' and isinstance(cond.left.value, ast.Name) and cond.left.value.id in names:
+            return (True, False)
+        if any(w in txt for w in VIS_WORDS) and any(isinstance(n, ast.Name) and n.id in names for n in ast.walk(cond)):
+            raise bad('guard %r mentions visibility in a way that is not understood' % txt, cond, self.where)
+        return (False, False)      # any other conjunct only narrows
+
+    def skip_atoms(self, cond: ast.expr, names: Set[str]) -> Tuple[bool, bool]:
+        """guards established when `cond` is FALSE (`if cond: continue`)"""
+        if isinstance(cond, ast.BoolOp) and isinstance(cond.op, ast.Or):
+            v = s = False
+            for p in cond.values:
+                a, b = self.skip_atoms(p, names)
+                v, s = v or a, s or b
+            return (v, s)
+        if isinstance(cond, ast.UnaryOp) and isinstance(cond.op, ast.Not):
+            return self.keep_atoms(cond.operand, names)
+        txt = ast.unparse(cond)
+        if isinstance(cond, ast.Compare) and len(cond.ops) == 1 and isinstance(cond.ops[0], ast.In) \
+                and isinstance(cond.left, ast.Constant) and cond.left.value == ' ' and self.is_name_of(cond.comparators[0], names):
+            return (False, True)
+        if isinstance(cond, ast.Compare) and len(cond.ops) == 1 and isinstance(cond.ops[0], ast.Is) \
+                and ast.unparse(cond.comparators[0]) == 'False' and isinstance(cond.left, ast.Attribute) \
+                and cond.left.attr == 'isVisible' and isinstance(cond.left.value, ast.Name) and cond.left.value.id in names:
+            return (True, False)
+        if isinstance(cond, ast.BoolOp) and isinstance(cond.op, ast.And):
+            # skip only when ALL hold: nothing is guaranteed for the elements that pass -- unless visibility is involved
+            if any(w in txt for w in VIS_WORDS) and any(isinstance(n, ast.Name) and n.id in names for n in ast.walk(cond)):
+                raise bad('skip condition %r mentions visibility in a way that is not understood' % txt, cond, self.where)
+            return (False, False)
+        if any(w in txt for w in VIS_WORDS) and any(isinstance(n, ast.Name) and n.id in names for n in ast.walk(cond)):
+            raise bad('skip condition %r mentions visibility in a way that is not understood' % txt, cond, self.where)
         return (False, False)
-    if negated:
-        # skip = A or B or ...   ==>   keep = not A and not B ...
-        parts = cond.values if isinstance(cond, ast.BoolOp) and isinstance(cond.op, ast.Or) else [cond]
-        vis = sp = False
-        for p in parts:
-            if isinstance(p, ast.UnaryOp) and isinstance(p.op, ast.Not):
-                v, s_ = atoms_of(p.operand, var, where)
-                vis, sp = vis or v, sp or s_
-            elif isinstance(p, ast.Compare) and len(p.ops) == 1 and isinstance(p.ops[0], ast.In) \
-                    and isinstance(p.left, ast.Constant) and p.left.value == ' ':
-                sp = True
-            else:
-                raise bad('skip-condition atom %r' % ast.unparse(p), p, where)
-        return (vis, sp)
-    parts = cond.values if isinstance(cond, ast.BoolOp) and isinstance(cond.op, ast.And) else [cond]
-    vis = sp = False
-    for p in parts:
-        s = ast.unparse(p)
-        if isinstance(p, ast.Attribute) and p.attr == 'isVisible' and isinstance(p.value, ast.Name) and p.value.id == var:
-            vis = True
-        elif isinstance(p, ast.BoolOp) and isinstance(p.op, ast.Or) and len(p.values) == 2 \
-                and ast.unparse(p.values[0]) == '%s is None' % var and ast.unparse(p.values[1]) == '%s.isVisible' % var:
-            vis = True          # `o is None or o.isVisible`: names that are not objects are kept as plain text
-        elif isinstance(p, ast.Compare) and len(p.ops) == 1 and isinstance(p.ops[0], ast.NotIn) \
-                and isinstance(p.left, ast.Constant) and p.left.value == ' ' \
-                and s in ("' ' not in %s.name" % var, "' ' not in %s.fullName()" % var):
-            sp = True
-        elif s in ('isinstance(%s, Module)' % var, 'not isinstance(%s, model.Module)' % var,
-                   '%s.documentation_location is model.DocLocation.PARENT_PAGE' % var,
-                   '%s.name not in maybe_masking' % var, '%s.system is hostsystem' % var,
-                   'not hasdocstring(%s)' % var):
-            pass                # narrowing atoms that do not concern visibility
-        else:
-            raise bad('guard atom %r' % s, p, where)
-    return (vis, sp)
 
-
-def comp_listing(comp: ast.AST, where: str) -> Tuple[str, bool, bool]:
-    if not isinstance(comp, (ast.GeneratorExp, ast.ListComp)) or len(comp.generators) != 1:
-        raise bad('expected one comprehension with one generator, got %s' % type(comp).__name__, comp, where)
-    g = comp.generators[0]
-    if not isinstance(g.target, ast.Name):
-        raise bad('comprehension target', comp, where)
-    cond: Optional[ast.expr] = None
-    if len(g.ifs) == 1:
-        cond = g.ifs[0]
-    elif len(g.ifs) > 1:
-        cond = ast.BoolOp(op=ast.And(), values=list(g.ifs))
-    vis, sp = atoms_of(cond, g.target.id, where)
-    if isinstance(g.iter, (ast.GeneratorExp, ast.ListComp)):
-        d, v2, s2 = comp_listing(g.iter, where)
-        return (d, vis or v2, sp or s2)
-    if isinstance(g.iter, ast.Call) and isinstance(g.iter.func, ast.Attribute) and g.iter.func.attr == 'submodules':
-        d, v2, s2 = submodules_listing()
-        return (d, vis or v2, sp or s2)
-    return (domain_of(g.iter, where), vis, sp)
-
-
-def unwrap(e: ast.expr) -> ast.expr:
-    """sorted(X, key=..) / list(X) / tuple(X) -> X"""
-    while isinstance(e, ast.Call) and isinstance(e.func, ast.Name) and e.func.id in ('sorted', 'list', 'tuple') and e.args:
-        e = e.args[0]
-    return e
-
-
-def submodules_listing() -> Tuple[str, bool, bool]:
-    fn = find_def('pydoctor.model', 'Module.submodules')
-    rets = [s for s in fn.body if isinstance(s, ast.Return)]
-    if len(rets) != 1 or rets[0].value is None:
-        raise bad('Module.submodules: expected a single return', fn, 'pydoctor.model')
-    return comp_listing(unwrap(rets[0].value), 'pydoctor.model.Module.submodules')
-
-
-def expr_listing(e: ast.expr, where: str) -> Tuple[str, bool, bool]:
-    e = unwrap(e)
-    if isinstance(e, ast.Call) and isinstance(e.func, ast.Attribute) and e.func.attr == 'submodules' and not e.args:
-        return submodules_listing()
-    return comp_listing(e, where)
-
-
-def single_return(fn: ast.FunctionDef, where: str) -> ast.expr:
-    rets = [s for s in ast.walk(fn) if isinstance(s, ast.Return) and s.value is not None]
-    if len(rets) != 1:
-        raise bad('expected exactly one return with a value (found %d)' % len(rets), fn, where)
-    return rets[0].value  # type: ignore
-
-
-def assigned(fn: ast.FunctionDef, name: str, where: str) -> ast.expr:
-    hits = [s for s in ast.walk(fn) if isinstance(s, ast.Assign) and len(s.targets) == 1
-            and isinstance(s.targets[0], ast.Name) and s.targets[0].id == name]
-    if len(hits) != 1:
-        raise bad('expected exactly one assignment to %r (found %d)' % (name, len(hits)), fn, where)
-    return hits[0].value
-
-
-def for_listing(fn: ast.FunctionDef, where: str, top_guard: bool = False) -> Tuple[str, bool, bool]:
-    """A single `for x in ITER:` whose body either starts with `if SKIP: continue`, or is one `if KEEP:` statement,
-    or has no guard.  With top_guard the function itself must start with `if not <param>.isVisible: return`."""
-    loops = [s for s in ast.walk(fn) if isinstance(s, ast.For)]
-    outer = [l for l in loops if not any(l is not o and l in list(ast.walk(o)) for o in loops)]
-    if len(outer) != 1:
-        raise bad('expected exactly one outermost for loop (found %d)' % len(outer), fn, where)
-    loop = outer[0]
-    if not isinstance(loop.target, ast.Name):
-        if isinstance(loop.target, ast.Tuple) and ast.unparse(loop.iter).startswith('zip('):
-            raise bad('zip loop is not a listing', loop, where)
-        raise bad('loop target', loop, where)
-    var = loop.target.id
-    vis = sp = False
-    first = loop.body[0]
-    if isinstance(first, ast.If) and len(first.body) == 1 and isinstance(first.body[0], ast.Continue) and not first.orelse:
-        vis, sp = atoms_of(first.test, var, where, negated=True)
-    elif isinstance(first, ast.If) and len(loop.body) == 1 and not first.orelse:
-        vis, sp = atoms_of(first.test, var, where)
-    dom = domain_of(loop.iter, where)
-    if top_guard:
-        g = fn.body[0]
-        if isinstance(g, ast.Expr) and isinstance(g.value, ast.Constant):
-            g = fn.body[1]
-        param = fn.args.args[1].arg if fn.args.args and fn.args.args[0].arg in ('self', 'cls') else fn.args.args[0].arg
-        ok = isinstance(g, ast.If) and ast.unparse(g.test) == 'not %s.isVisible' % param and len(g.body) == 1 \
-            and isinstance(g.body[0], ast.Return) and g.body[0].value is None and not g.orelse
-        vis = vis or ok
-    return (dom, vis, sp)
-
-
-# ------------------------------------------------------------------------------- pinned functions
-PINNED = {
-    ('pydoctor.model', 'Documentable.page_object'):
-        'location = self.documentation_location\nif location is DocLocation.OWN_PAGE:\n    return self\nelif location is DocLocation.PARENT_PAGE:\n    parent = self.parent\n    assert parent is not None\n    return parent\nelse:\n    assert False, location',
-    ('pydoctor.model', 'Documentable.url'):
-        "page_obj = self.page_object\nif list(self.system.root_names) == [page_obj.fullName()]:\n    page_url = 'index.html'\nelse:\n    page_url = f'{quote(page_obj.fullName())}.html'\nif page_obj is self:\n    return page_url\nelse:\n    return f'{page_url}#{quote(self.name)}'",
-    ('pydoctor.model', 'Documentable.isVisible'):
-        'isVisible = self.privacyClass is not PrivacyClass.HIDDEN\nif isVisible and self.parent:\n    isVisible = self.parent.isVisible\nreturn isVisible',
-    ('pydoctor.model', 'Module.privacyClass'):
-        "if self.name == '__main__':\n    return PrivacyClass.PRIVATE\nelse:\n    return super().privacyClass",
-    ('pydoctor.model', 'Documentable.privacyClass'):
-        'return self.system.privacyClass(self)',
-    ('pydoctor.model', 'Documentable.isPrivate'):
-        'return self.privacyClass is not PrivacyClass.PUBLIC',
-    ('pydoctor.model', 'Documentable.fullName'):
-        "parent = self.parent\nif parent is None:\n    return self.name\nelse:\n    return f'{parent.fullName()}.{self.name}'",
-    ('pydoctor.model', 'System.objectsOfType'):
-        "if isinstance(cls, str):\n    cls = utils.findClassFromDottedName(cls, 'objectsOfType', base_class=cast(Type['DocumentableT'], Documentable))\nassert isinstance(cls, type)\nfor o in self.allobjects.values():\n    if isinstance(o, cls):\n        yield o",
-    ('pydoctor.templatewriter.util', 'nested_bases'):
-        '_mro = classobj.mro()\nfor i, _ in enumerate(_mro):\n    yield tuple(reversed(_mro[:i + 1]))',
-    ('pydoctor.templatewriter.util', 'inherited_members'):
-        'children: List[model.Documentable] = []\nfor inherited_via, attrs in class_members(cls):\n    if len(inherited_via) > 1:\n        children.extend(attrs)\nreturn children',
-    ('pydoctor.templatewriter.util', 'class_members'):
-        'baselists = []\nfor baselist in nested_bases(cls):\n    attrs = unmasked_attrs(baselist)\n    if attrs:\n        baselists.append((baselist, attrs))\nreturn baselists',
-    ('pydoctor.templatewriter.pages.functionchild', 'FunctionChild.functionAnchor'): 'return self.ob.fullName()',
-    ('pydoctor.templatewriter.pages.functionchild', 'FunctionChild.shortFunctionAnchor'): 'return self.ob.name',
-    ('pydoctor.templatewriter.pages.functionchild', 'FunctionChild.anchorHref'):
-        "name = self.shortFunctionAnchor(request, tag)\nreturn f'#{name}'",
-    ('pydoctor.templatewriter.pages.attributechild', 'AttributeChild.functionAnchor'): 'return self.ob.fullName()',
-    ('pydoctor.templatewriter.pages.attributechild', 'AttributeChild.shortFunctionAnchor'): 'return self.ob.name',
-    ('pydoctor.templatewriter.pages.attributechild', 'AttributeChild.anchorHref'):
-        "name = self.shortFunctionAnchor(request, tag)\nreturn f'#{name}'",
-}
-
-
-def check_compact_condition() -> None:
-    """summary.moduleSummary switches to the compact form on exactly the condition Model/Site.compact_listing mirrors"""
-    fn = find_def('pydoctor.templatewriter.summary', 'moduleSummary')
-    tests = [ast.unparse(s.test) for s in ast.walk(fn) if isinstance(s, ast.If)]
-    want = 'len(contents) > 50 and (not any((any(s.submodules()) for s in contents)))'
-    if want not in tests:
-        raise bad('moduleSummary: the compact-form condition changed; expected `%s`, found %s' % (want, tests), fn, 'summary')
-
-
-def check_pinned() -> None:
-    for (m, q), want in PINNED.items():
-        got = body_text(find_def(m, q))
-        if got != want:
-            raise bad('%s.%s no longer has the body Model/Site.v mirrors:\n--- expected\n%s\n--- found\n%s' % (m, q, want, got))
-
-
-# ------------------------------------------------------------------------------- markers and the link builder
-def taglink_drops_hidden() -> bool:
-    fn = find_def('pydoctor.linker', 'taglink')
-    guards = [s for s in fn.body if isinstance(s, ast.If) and ast.unparse(s.test) == 'not o.isVisible']
-    if len(guards) != 1:
-        raise bad('taglink: expected exactly one `if not o.isVisible:` statement (found %d)' % len(guards), fn, 'pydoctor.linker')
-    g = guards[0]
-    if g.orelse:
-        raise bad('taglink: else branch on the visibility guard', g, 'pydoctor.linker')
-    # everything after the guard builds the <a href>; the guard drops the link iff it ends with a return whose
-    # value mentions neither tags.a nor href nor url
-    last = g.body[-1]
-    if isinstance(last, ast.Return) and last.value is not None:
-        txt = ast.unparse(last.value)
-        if 'tags.a' in txt or 'href' in txt or 'url' in txt:
-            return False
-        if txt not in ('tags.transparent(label)', 'tags.span(label)', 'tags.code(label)', 'label'):
-            raise bad('taglink: value returned for a hidden target %r' % txt, last, 'pydoctor.linker')
-        return True
-    for s in g.body:
-        if not (isinstance(s, ast.Expr) and isinstance(s.value, ast.Call)):
-            raise bad('taglink: statement inside the visibility guard %r' % ast.unparse(s), s, 'pydoctor.linker')
-    return False            # only logs and falls through to the <a href>
-
-
-def taglink_rest_pinned() -> None:
-    fn = find_def('pydoctor.linker', 'taglink')
-    rest = [s for s in fn.body if not (isinstance(s, ast.If) and ast.unparse(s.test) == 'not o.isVisible')]
-    fn2 = ast.FunctionDef(name='f', args=fn.args, body=rest, decorator_list=[], returns=None, type_comment=None, lineno=0, col_offset=0)
-    got = body_text(fn2)  # type: ignore
-    want = ("if label is None:\n    label = o.fullName()\nurl = o.url\nif page_url and url.startswith(page_url + '#'):\n"
-            "    url = url[len(page_url):]\nret: Tag = tags.a(label, href=url, class_='internal-link')\n"
-            "if label != o.fullName():\n    ret(title=o.fullName())\nreturn ret")
-    if got != want:
-        raise bad('linker.taglink (outside the visibility guard) changed:\n--- expected\n%s\n--- found\n%s' % (want, got))
-
-
-def marks_private(modname: str, qual: str, test_src: List[str], what: str, require_all: bool = False) -> bool:
-    """Is there an `if <test>:` (test from the closed list) whose body adds the `private` class?
-    With require_all every listed test must guard such a body (moduleSummary: the normal and the compact form)."""
-    fn = find_def(modname, qual)
-    found = False
-    hit = set()
-    for s in ast.walk(fn):
-        if isinstance(s, ast.If) and ast.unparse(s.test) in test_src:
-            body = ast.unparse(ast.Module(body=s.body, type_ignores=[]))
-            if 'private' in body:
-                found = True
-                hit.add(ast.unparse(s.test))
-    if require_all:
-        found = found and hit == set(test_src)
-    if not found:
-        # the marker may only be absent, not replaced by something we do not understand
-        for s in ast.walk(fn):
-            if isinstance(s, ast.Constant) and isinstance(s.value, str) and 'private' in s.value:
-                raise bad('%s.%s mentions "private" outside a recognised test (%s)' % (modname, qual, what), s, modname)
-    return found
-
-
-def uses_css_class(modname: str, qual: str, arg: str) -> bool:
-    fn = find_def(modname, qual)
-    for s in ast.walk(fn):
-        if isinstance(s, ast.Call) and ast.unparse(s.func) in ('util.css_class', 'css_class') \
-                and len(s.args) == 1 and ast.unparse(s.args[0]) == arg:
+    @staticmethod
+    def is_name_of(e: ast.expr, names: Set[str]) -> bool:
+        if isinstance(e, ast.Attribute) and e.attr == 'name' and isinstance(e.value, ast.Name) and e.value.id in names:
             return True
-    return False
+        if isinstance(e, ast.Call) and isinstance(e.func, ast.Attribute) and e.func.attr == 'fullName' \
+                and isinstance(e.func.value, ast.Name) and e.func.value.id in names and not e.args:
+            return True
+        return False
+
+    @staticmethod
+    def mentions(node: ast.AST, names: Set[str]) -> bool:
+        return any(isinstance(n, ast.Name) and n.id in names for n in ast.walk(node))
+
+    def body_guards(self, body: List[ast.stmt], names: Set[str], emit: Any) -> Optional[Tuple[bool, bool]]:
+        """The guards common to every EMIT statement of `body` (None: no emit statement).  emit(stmt) says whether a
+        statement uses the element; `if c: continue / return / break / raise` are guard clauses for what follows."""
+        v = s = False            # guards established so far on this path
+        result: Optional[Tuple[bool, bool]] = None
+
+        def meet(r: Tuple[bool, bool]) -> None:
+            nonlocal result
+            result = r if result is None else (result[0] and r[0], result[1] and r[1])
+        for st in body:
+            if isinstance(st, ast.If):
+                exits = bool(st.body) and isinstance(st.body[-1], (ast.Continue, ast.Return, ast.Break, ast.Raise)) \
+                    and not any(emit(x) for x in st.body[:-1]) \
+                    and not (isinstance(st.body[-1], ast.Return) and st.body[-1].value is not None and emit(st.body[-1]))
+                if exits and not st.orelse:
+                    a, b = self.skip_atoms(st.test, names)
+                    v, s = v or a, s or b
+                    continue
+                if exits and st.orelse:
+                    a, b = self.skip_atoms(st.test, names)
+                    r = self.body_guards(st.orelse, names, emit)
+                    if r is not None:
+                        meet((v or a or r[0], s or b or r[1]))
+                    v, s = v or a, s or b
+                    continue
+                a, b = self.keep_atoms(st.test, names)
+                r1 = self.body_guards(st.body, names, emit)
+                if r1 is not None:
+                    meet((v or a or r1[0], s or b or r1[1]))
+                if st.orelse:
+                    a2, b2 = self.skip_atoms(st.test, names)
+                    r2 = self.body_guards(st.orelse, names, emit)
+                    if r2 is not None:
+                        meet((v or a2 or r2[0], s or b2 or r2[1]))
+                continue
+            if isinstance(st, (ast.With, ast.Try)):
+                inner = list(st.body) + (list(getattr(st, 'orelse', [])) + list(getattr(st, 'finalbody', [])))
+                for h in getattr(st, 'handlers', []):
+                    inner += h.body
+                if isinstance(st, ast.With) and any(emit(ast.Expr(value=i.context_expr)) for i in st.items):
+                    meet((v, s))
+                r = self.body_guards(inner, names, emit)
+                if r is not None:
+                    meet((v or r[0], s or r[1]))
+                continue
+            if emit(st):
+                meet((v, s))
+        return result
+
+    # ---------------------------------------------------------------- streams
+    def stream_of_expr(self, e: ast.expr, scope: List[ast.stmt]) -> Stream:
+        # wrappers that keep the elements
+        while isinstance(e, ast.Call) and isinstance(e.func, ast.Name) and e.func.id in ('sorted', 'list', 'tuple', 'reversed', 'iter', 'peek_iter') and e.args:
+            e = e.args[0]
+        if isinstance(e, (ast.GeneratorExp, ast.ListComp, ast.SetComp)):
+            if len(e.generators) != 1 or not isinstance(e.generators[0].target, ast.Name):
+                raise bad('comprehension with several generators / a tuple target', e, self.where)
+            g = e.generators[0]
+            base = self.stream_of_expr(g.iter, scope)
+            names = {g.target.id}
+            v = s = False
+            for c in g.ifs:
+                a, b = self.keep_atoms(c, names)
+                v, s = v or a, s or b
+            return base.plus(v, s)
+        if isinstance(e, ast.Call) and isinstance(e.func, ast.Name) and e.func.id == 'filter' and len(e.args) == 2 \
+                and isinstance(e.args[0], ast.Lambda) and len(e.args[0].args.args) == 1:
+            base = self.stream_of_expr(e.args[1], scope)
+            a, b = self.keep_atoms(e.args[0].body, {e.args[0].args.args[0].arg})
+            return base.plus(a, b)
+        if isinstance(e, ast.Call) and isinstance(e.func, ast.Attribute) and e.func.attr == 'values' and not e.args:
+            inner = e.func.value
+            if isinstance(inner, ast.Attribute) and inner.attr == 'contents':
+                return Stream('DContents', why=ast.unparse(e))
+            if isinstance(inner, ast.Attribute) and inner.attr == 'allobjects':
+                return Stream('DAllobjects', why=ast.unparse(e))
+        if isinstance(e, ast.Attribute) and e.attr == 'rootobjects':
+            return Stream('DRootobjects', why=ast.unparse(e))
+        if isinstance(e, ast.Attribute) and e.attr == 'subclasses':
+            return Stream('DSubclasses', why=ast.unparse(e))
+        if isinstance(e, ast.Attribute) and isinstance(e.value, ast.Name) and e.value.id == 'self':
+            return Stream('DGiven', why=ast.unparse(e))           # handed to the constructor by the caller
+        if isinstance(e, ast.Name):
+            if e.id in self.params and not self.assigned_anywhere(e.id):
+                return Stream('DGiven', why='parameter ' + e.id)
+            return self.stream_of_local(e.id, scope)
+        if isinstance(e, ast.Call):
+            return self.stream_of_call(e, scope)
+        raise bad('iteration source %r' % ast.unparse(e), e, self.where)
+
+    def assigned_anywhere(self, name: str) -> bool:
+        for sub in ast.walk(self.node):
+            if isinstance(sub, (ast.Assign, ast.AnnAssign, ast.AugAssign)):
+                tg = sub.targets if isinstance(sub, ast.Assign) else [sub.target]
+                if any(isinstance(t, ast.Name) and t.id == name for t in tg):
+                    return True
+        return False
+
+    def stream_of_local(self, name: str, scope: List[ast.stmt]) -> Stream:
+        """a local: assigned from a stream expression, or a list filled by loops with .append / .extend"""
+        visiting = self.__dict__.setdefault('_visiting', [])
+        if name in visiting:
+            if name in self.params:
+                return Stream('DGiven', why='parameter ' + name)      # re-bound later from itself: its initial value
+            raise bad('local %r is defined in terms of itself' % name, self.node, self.where)
+        visiting.append(name)
+        try:
+            return self._stream_of_local(name, scope)
+        finally:
+            visiting.pop()
+
+    def _stream_of_local(self, name: str, scope: List[ast.stmt]) -> Stream:
+        assigns: List[ast.expr] = []
+        for sub in ast.walk(self.node):
+            if isinstance(sub, ast.Assign) and len(sub.targets) == 1 and isinstance(sub.targets[0], ast.Name) and sub.targets[0].id == name:
+                assigns.append(sub.value)
+            elif isinstance(sub, ast.AnnAssign) and isinstance(sub.target, ast.Name) and sub.target.id == name and sub.value is not None:
+                assigns.append(sub.value)
+        if not assigns:
+            raise bad('local %r is never assigned' % name, self.node, self.where)
+        streams: List[Stream] = []
+        empties = [a for a in assigns if (isinstance(a, (ast.List, ast.Tuple)) and not a.elts)
+                   or (isinstance(a, ast.Call) and isinstance(a.func, ast.Name) and a.func.id in ('list', 'set') and not a.args)]
+        for a in assigns:
+            if a in empties:
+                continue
+            if isinstance(a, ast.Name) and a.id == name:
+                continue
+            streams.append(self.stream_of_expr(a, scope))
+        if empties:
+            # filled by loops:  for v in ITER: ... name.append(<something of v>)
+            found = False
+            for loop in [n for n in ast.walk(self.node) if isinstance(n, ast.For)]:
+                def emit(st: ast.stmt, _n: str = name) -> bool:
+                    for c in ast.walk(st):
+                        if isinstance(c, ast.Call) and isinstance(c.func, ast.Attribute) and c.func.attr in ('append', 'add', 'extend', 'insert') \
+                                and isinstance(c.func.value, ast.Name) and c.func.value.id == _n:
+                            return True
+                    return False
+                if not any(emit(st) for st in loop.body):
+                    continue
+                inner_loops = [l for l in ast.walk(loop) if isinstance(l, ast.For) and l is not loop and any(emit(st) for st in l.body)]
+                if inner_loops:
+                    continue        # the innermost loop that appends is analysed on its own
+                found = True
+                streams.append(self.stream_of_loop(loop, emit, scope))
+            if not found and not streams:
+                raise bad('list %r is created empty and never filled by a loop that is understood' % name, self.node, self.where)
+        if not streams:
+            raise bad('local %r: no stream found' % name, self.node, self.where)
+        dom = {s.domain for s in streams}
+        if len(dom) != 1:
+            raise bad('local %r is filled from different collections %s' % (name, sorted(dom)), self.node, self.where)
+        return Stream(streams[0].domain, all(s.vis for s in streams), all(s.nospace for s in streams), streams[0].why)
+
+    def stream_of_loop(self, loop: ast.For, emit: Any, scope: List[ast.stmt]) -> Stream:
+        if isinstance(loop.target, ast.Name):
+            var = loop.target.id
+        elif isinstance(loop.target, ast.Tuple) and all(isinstance(t, ast.Name) for t in loop.target.elts):
+            raise bad('loop over tuples is not a listing', loop, self.where)
+        else:
+            raise bad('loop target', loop, self.where)
+        base = self.stream_of_expr(loop.iter, scope)
+        names = self.aliases_of(var, loop.body)
+        g = self.body_guards(loop.body, names, emit)
+        if g is None:
+            raise bad('loop over %s has no statement that uses its element' % ast.unparse(loop.iter), loop, self.where)
+        return base.plus(g[0], g[1])
+
+    def stream_of_call(self, e: ast.Call, scope: List[ast.stmt]) -> Stream:
+        """a call into pydoctor's own helper functions / methods is followed"""
+        if self.depth > 4:
+            raise bad('helper calls nested too deeply at %r' % ast.unparse(e), e, self.where)
+        if ast.unparse(e.func).endswith('inherited_members'):
+            return Stream('DInherited', why=ast.unparse(e))     # util.inherited_members: checked behaviourally
+        cands: List[Tuple[str, str, ast.FunctionDef]] = []
+        if isinstance(e.func, ast.Name):
+            name = e.func.id
+            for q, n in defs_named(self.modname, name):
+                if '.' not in q:
+                    cands.append((self.modname, q, n))
+            if not cands:
+                tgt = module_aliases(self.modname).get(name)
+                if tgt and ':' in tgt:
+                    m, q = tgt.split(':')
+                    cands.append((m, q, find_def(m, q)))
+        elif isinstance(e.func, ast.Attribute):
+            name = e.func.attr
+            recv = e.func.value
+            al = module_aliases(self.modname)
+            if isinstance(recv, ast.Name) and recv.id in al and ':' not in al[recv.id]:
+                m = al[recv.id]
+                cands = [(m, q, n) for q, n in defs_named(m, name) if '.' not in q]
+            else:
+                # a method of some pydoctor object: every definition of that name must agree
+                for m in HELPER_MODULES:
+                    try:
+                        cands += [(m, q, n) for q, n in defs_named(m, name) if '.' in q]
+                    except Shape:
+                        pass
+        if not cands:
+            raise bad('iteration source %r: not a known collection and no helper of that name in pydoctor' % ast.unparse(e), e, self.where)
+        res: List[Stream] = []
+        for m, q, n in cands:
+            res.append(Fn(m, q, n, self.depth + 1).returned_stream())
+        if len({r.triple() for r in res}) != 1:
+            raise bad('helpers named like %r disagree: %s' % (ast.unparse(e.func), [r.triple() for r in res]), e, self.where)
+        r0 = res[0]
+        if r0.domain == 'DGiven':
+            # the helper filters one of its arguments: the stream is the caller's argument
+            raise bad('helper %r returns a filtered argument; pass-through helpers are not followed' % ast.unparse(e.func), e, self.where)
+        return r0
+
+    def returned_stream(self) -> Stream:
+        """the stream a helper returns (single return of a stream expression) or yields (generator function)"""
+        yields = [n for n in ast.walk(self.node) if isinstance(n, (ast.Yield, ast.YieldFrom))]
+        if yields:
+            loops = [l for l in ast.walk(self.node) if isinstance(l, ast.For)
+                     and any(isinstance(n, (ast.Yield, ast.YieldFrom)) for st in l.body for n in ast.walk(st))]
+            outer = [l for l in loops if not any(l is not o and any(l is x for x in ast.walk(o)) for o in loops)]
+            if len(outer) != 1:
+                raise bad('generator helper with %d yielding loops' % len(outer), self.node, self.where)
+
+            def emit(st: ast.stmt) -> bool:
+                return any(isinstance(n, (ast.Yield, ast.YieldFrom)) for n in ast.walk(st))
+            return self.stream_of_loop(outer[0], emit, self.node.body)
+        rets = [s for s in ast.walk(self.node) if isinstance(s, ast.Return) and s.value is not None]
+        if len(rets) != 1:
+            raise bad('helper with %d returns' % len(rets), self.node, self.where)
+        return self.stream_of_expr(rets[0].value, self.node.body)
+
+    # ---------------------------------------------------------------- producer-level selectors
+    def loops_with(self, pred: Any) -> List[ast.For]:
+        """innermost for loops / comprehensions are handled by the callers; here: for loops whose body satisfies pred"""
+        loops = [l for l in ast.walk(self.node) if isinstance(l, ast.For) and any(pred(st) for st in l.body)]
+        return [l for l in loops if not any(i is not l and any(i is x for x in ast.walk(l)) and any(pred(st) for st in i.body)
+                                            for i in loops)]
+
+    def stream_feeding_call(self, callee_pred: Any, what: str) -> Stream:
+        """the elements handed, one by one, to a call selected by callee_pred (a recursive call, taglink(...), ...):
+        a for loop whose body contains the call, or a comprehension whose element contains it"""
+        def has_call(node: ast.AST) -> bool:
+            return any(isinstance(c, ast.Call) and callee_pred(c) for c in ast.walk(node))
+        found: List[Stream] = []
+        for comp in [n for n in ast.walk(self.node) if isinstance(n, (ast.ListComp, ast.GeneratorExp, ast.SetComp))]:
+            if has_call(comp.elt) and len(comp.generators) == 1 and isinstance(comp.generators[0].target, ast.Name) \
+                    and self.mentions(comp.elt, {comp.generators[0].target.id}):
+                found.append(self.stream_of_expr(comp, self.node.body))
+        for loop in self.loops_with(lambda st: has_call(st)):
+            if not isinstance(loop.target, ast.Name):
+                continue
+            names = self.aliases_of(loop.target.id, loop.body)
+
+            def emit(st: ast.stmt, _names: Set[str] = names) -> bool:
+                return any(isinstance(c, ast.Call) and callee_pred(c) and self.mentions(c, _names) for c in ast.walk(st))
+            if any(emit(st) for st in loop.body):
+                found.append(self.stream_of_loop(loop, emit, self.node.body))
+        if len(found) != 1:
+            raise bad('%s: expected exactly one loop / comprehension feeding %s (found %d)' % (self.where, what, len(found)), self.node, self.where)
+        return found[0]
+
+    def param_guards(self, param: str, emit: Any) -> Tuple[bool, bool]:
+        """guards on a PARAMETER that hold at every emit statement of the function body (`if not ob.isVisible: return`)"""
+        body = self.node.body
+        if body and isinstance(body[0], ast.Expr) and isinstance(body[0].value, ast.Constant) and isinstance(body[0].value.value, str):
+            body = body[1:]
+        g = self.body_guards(body, {param}, emit)
+        if g is None:
+            raise bad('no statement uses parameter %r' % param, self.node, self.where)
+        return g
 
 
-def search_privacy_field() -> bool:
-    fn = find_def('pydoctor.templatewriter.search', 'get_all_documents_flattenable')
-    comp = unwrap(single_return(fn, 'search.get_all_documents_flattenable'))
-    if not isinstance(comp, ast.GeneratorExp) or not isinstance(comp.elt, ast.Dict):
-        raise bad('get_all_documents_flattenable: expected a generator of dict literals', fn, 'search')
-    for k, v in zip(comp.elt.keys, comp.elt.values):
-        if isinstance(k, ast.Constant) and k.value == 'privacy':
-            return ast.unparse(v) in ('str(ob.privacyClass.name)', 'ob.privacyClass.name')
-    return False
+def call_named(*names: str) -> Any:
+    def pred(c: ast.Call) -> bool:
+        f = c.func
+        n = f.id if isinstance(f, ast.Name) else (f.attr if isinstance(f, ast.Attribute) else None)
+        return n in names
+    return pred
 
 
-# ------------------------------------------------------------------------------- generate
+def returned(modname: str, qual: str) -> Tuple[str, bool, bool]:
+    fn = Fn(modname, qual)
+    return fn.returned_stream().triple()
+
+
+def returned_per_branch(modname: str, qual: str, flag: str) -> Tuple[Tuple[str, bool, bool], Tuple[str, bool, bool]]:
+    """a function with `if <flag>: return A else: return B` (in either order / with an early return)"""
+    fn = Fn(modname, qual)
+    body = [s for s in fn.node.body if not (isinstance(s, ast.Expr) and isinstance(s.value, ast.Constant))]
+    ifs = [s for s in body if isinstance(s, ast.If)]
+    if len(ifs) != 1:
+        raise bad('%s: expected one `if %s` statement' % (qual, flag), fn.node, fn.where)
+    st = ifs[0]
+    t = ast.unparse(st.test)
+    pos = t in (flag, '%s is True' % flag, '%s == True' % flag)
+    neg = t in ('not %s' % flag, '%s is False' % flag)
+    if not (pos or neg):
+        raise bad('%s: test %r' % (qual, t), st, fn.where)
+    after = body[body.index(st) + 1:]
+    else_body = st.orelse or after
+
+    def ret_of(stmts: List[ast.stmt]) -> Tuple[str, bool, bool]:
+        rets = [s for x in stmts for s in ast.walk(x) if isinstance(s, ast.Return) and s.value is not None]
+        if len(rets) != 1:
+            raise bad('%s: expected one return per branch' % qual, fn.node, fn.where)
+        return fn.stream_of_expr(rets[0].value, stmts).triple()
+    a, b = ret_of(st.body), ret_of(else_body)
+    return (a, b) if pos else (b, a)
+
+
+# =============================================================================== behavioural checks on fixtures
+FIXTURE = [
+    ('pkg', None, True, '"""Package."""\nCONST = 1\n"""c"""\ndef top():\n    "t"\n'),
+    ('hid', 'pkg', False, '"""h"""\nclass H:\n    "h"\n    def m(self):\n        "d"\n    def only(self):\n        "o"\n    y = 2\n'),
+    ('mod', 'pkg', False,
+     '"""m"""\nfrom pkg.hid import H\nclass B(H):\n    "b"\n    def f(self):\n        "d"\n    def g(self):\n        "g"\n    x = 1\n'
+     '    class N:\n        "n"\n        z = 3\nclass C(B):\n    "c"\n    def f(self):\n        pass\n    def _p(self):\n        "p"\n'
+     'class Cl\u00e9:\n    "e"\n    def m\u00e9(self):\n        "x"\ndef dup():\n    "1"\ndef dup():\n    pass\n_v = 2\n'),
+    ('__main__', 'pkg', False, '"""main"""\ndef run():\n    "r"\n'),
+    ('sub', 'pkg', True, '"""s"""\n'),
+    ('leaf', 'pkg.sub', False, '"""l"""\nclass L:\n    "l"\n'),
+]
+RULESETS = [
+    [],
+    [('HIDDEN', 'pkg.hid')],
+    [('HIDDEN', 'pkg.mod.B'), ('PRIVATE', 'pkg.mod.C.f'), ('PUBLIC', 'pkg.mod.C._p')],
+    [('HIDDEN', 'pkg.__main__'), ('PRIVATE', 'pkg.mod.B.x'), ('HIDDEN', 'pkg.mod.B.f')],
+    [('PRIVATE', 'pkg'), ('HIDDEN', 'pkg.mod.B.N'), ('PRIVATE', 'pkg.hid.H.m'), ('HIDDEN', 'pkg.sub')],
+]
+
+
+def build_system(rules: List[Tuple[str, str]], extra_root: bool) -> Any:
+    from pydoctor import model
+    s = model.System()
+    s.options.verbosity = -10          # the fixtures are not a documentation run: no messages
+    s.options.privacy = [(getattr(model.PrivacyClass, lv), pat) for lv, pat in rules]
+    b = s.systemBuilder(s)
+    for name, parent, is_pkg, text in FIXTURE:
+        b.addModuleString(text, name, parent_name=parent, is_package=is_pkg)
+    if extra_root:
+        b.addModuleString('"""other root"""\nclass O:\n    "o"\n    def q(self):\n        "q"\n', 'other')
+    b.buildModules()
+    return s
+
+
+def behaviour_checks() -> Dict[str, bool]:
+    """Runs the live functions on the fixtures; returns the measured flags; raises Shape on any difference from what
+    Model/Site.v mirrors."""
+    from pydoctor import model, linker
+    from pydoctor.templatewriter import util, summary, search
+    from pydoctor.templatewriter.pages import table as table_mod, sidebar as sidebar_mod, functionchild, attributechild
+    PC = model.PrivacyClass
+    flags: Dict[str, Set[bool]] = {k: set() for k in ('taglink_drops', 'css_private', 'row_css', 'child_css', 'sidebar_private',
+                                                      'modsummary_private', 'search_privacy')}
+
+    def differ(what: str, obj: Any, got: Any, want: Any) -> Shape:
+        return bad('behaviour of %s on %r differs from what Model/Site.v mirrors: got %r, expected %r' % (what, obj, got, want))
+
+    def find_tag(t: Any, name: str) -> List[Any]:
+        out = []
+        stack = [t]
+        while stack:
+            x = stack.pop()
+            if isinstance(x, (list, tuple)):
+                stack.extend(x)
+            elif hasattr(x, 'tagName'):
+                if x.tagName == name:
+                    out.append(x)
+                stack.extend(getattr(x, 'children', []))
+        return out
+
+    def words(c: Any) -> Set[str]:
+        return set(str(c or '').split())
+
+    for rules in RULESETS:
+        for extra in (False, True):
+            try:
+                s = build_system(rules, extra)
+            except Exception as e:
+                raise bad('cannot build the fixture system: %s: %s' % (type(e).__name__, e))
+            objs = list(s.allobjects.values())
+            roots = list(s.root_names)
+
+            def eff(o: Any) -> Any:
+                raw = s.privacyClass(o)
+                return PC.PRIVATE if isinstance(o, model.Module) and o.name == '__main__' else raw
+
+            def r_full(o: Any) -> str:
+                return o.name if o.parent is None else r_full(o.parent) + '.' + o.name
+
+            def r_vis(o: Any) -> bool:
+                return eff(o) is not PC.HIDDEN and (o.parent is None or r_vis(o.parent))
+
+            def r_page(o: Any) -> Any:
+                return o if isinstance(o, (model.Module, model.Class)) else o.parent
+
+            def r_url(o: Any) -> str:
+                p = r_page(o)
+                pu = 'index.html' if roots == [r_full(p)] else _quote(r_full(p)) + '.html'
+                return pu if p is o else pu + '#' + _quote(o.name)
+            try:
+                for o in objs:
+                    if o.fullName() != r_full(o):
+                        raise differ('Documentable.fullName', o, o.fullName(), r_full(o))
+                    if o.privacyClass is not eff(o):
+                        raise differ('privacyClass (Module: __main__ is PRIVATE)', o, o.privacyClass, eff(o))
+                    if bool(o.isVisible) != r_vis(o):
+                        raise differ('Documentable.isVisible', o, o.isVisible, r_vis(o))
+                    if bool(o.isPrivate) != (eff(o) is not PC.PUBLIC):
+                        raise differ('Documentable.isPrivate', o, o.isPrivate, eff(o) is not PC.PUBLIC)
+                    if o.page_object is not r_page(o):
+                        raise differ('Documentable.page_object', o, o.page_object, r_page(o))
+                    if o.url != r_url(o):
+                        raise differ('Documentable.url', o, o.url, r_url(o))
+                # ---- taglink
+                ctxs = ['', 'nameIndex.html', 'index.html'] + sorted({r_url(r_page(o)) for o in objs})
+                for o in objs:
+                    for ctx in ctxs:
+                        for label in (None, 'lbl'):
+                            t = linker.taglink(o, ctx, label)
+                            links = find_tag(t, 'a')
+                            u = r_url(o)
+                            want_href = u[len(ctx):] if ctx and u.startswith(ctx + '#') else u
+                            if r_vis(o):
+                                if len(links) != 1 or links[0].attributes.get('href') != want_href \
+                                        or 'internal-link' not in words(links[0].attributes.get('class')):
+                                    raise differ('linker.taglink(%r, %r)' % (r_full(o), ctx), o,
+                                                 [l.attributes for l in links], {'href': want_href, 'class': 'internal-link'})
+                                want_title = None if label is None else r_full(o)
+                                if links[0].attributes.get('title') != want_title:
+                                    raise differ('linker.taglink title', o, links[0].attributes.get('title'), want_title)
+                            else:
+                                if not links:
+                                    flags['taglink_drops'].add(True)
+                                elif len(links) == 1 and links[0].attributes.get('href') == want_href:
+                                    flags['taglink_drops'].add(False)
+                                else:
+                                    raise differ('linker.taglink of a hidden target', o, [l.attributes for l in links], 'no <a> or the plain link')
+                # ---- markers
+                for o in objs:
+                    if not r_vis(o):
+                        continue
+                    css = words(util.css_class(o))
+                    flags['css_private'].add(('private' in css) == (eff(o) is PC.PRIVATE))
+                    if o.parent is not None:
+                        for holder in {o.parent} | ({c for c in objs if isinstance(c, model.Class) and isinstance(o.parent, model.Class)
+                                                     and o.parent in c.mro() and c is not o.parent}):
+                            row = object.__new__(table_mod.TableRow)
+                            row.ob, row.child, row.docgetter = holder, o, None
+                            got = words(row.class_(None, None))
+                            flags['row_css'].add(('private' in got) == ('private' in css))
+                        item = object.__new__(sidebar_mod.ContentItem)
+                        item.child, item.ob, item.documented_ob = o, o.parent, o.parent
+                        flags['sidebar_private'].add(('private' in words(item.class_(None, None))) == bool(eff(o) is not PC.PUBLIC))
+                    if isinstance(o, (model.Function, model.Attribute)):
+                        cls_ = functionchild.FunctionChild if isinstance(o, model.Function) else attributechild.AttributeChild
+                        ch = object.__new__(cls_)
+                        ch.ob, ch.docgetter, ch._functionExtras = o, None, []
+                        flags['child_css'].add(('private' in words(ch.class_(None, None))) == ('private' in css))
+                        if ch.functionAnchor(None, None) != r_full(o) or ch.shortFunctionAnchor(None, None) != o.name \
+                                or ch.anchorHref(None, None) != '#' + o.name:
+                            raise differ('anchor renderers of %s' % cls_.__name__, o,
+                                         [ch.functionAnchor(None, None), ch.shortFunctionAnchor(None, None), ch.anchorHref(None, None)],
+                                         [r_full(o), o.name, '#' + o.name])
+                    if isinstance(o, model.Module):
+                        li = summary.moduleSummary(o, 'moduleIndex.html')
+                        flags['modsummary_private'].add(('private' in words(li.attributes.get('class'))) == (eff(o) is not PC.PUBLIC))
+                docs = {str(d['id']): d for d in search.get_all_documents_flattenable(s)}
+                for o in objs:
+                    if r_full(o) in docs and r_vis(o) and s.allobjects.get(r_full(o)) is o:
+                        flags['search_privacy'].add(str(docs[r_full(o)].get('privacy')) == eff(o).name)
+                        if str(docs[r_full(o)].get('url')) != r_url(o):
+                            raise differ("the 'url' field of search documents", o, docs[r_full(o)].get('url'), r_url(o))
+                # ---- class helpers
+                got_cls = list(s.objectsOfType(model.Class))
+                want_cls = [o for o in objs if isinstance(o, model.Class)]
+                if got_cls != want_cls:
+                    raise differ('System.objectsOfType(Class)', s, got_cls, want_cls)
+                for c in want_cls:
+                    mro = list(c.mro())
+                    chains = [tuple(reversed(mro[:i + 1])) for i in range(len(mro))]
+                    if list(util.nested_bases(c)) != chains:
+                        raise differ('util.nested_bases', c, list(util.nested_bases(c)), chains)
+                    members = [(ch, list(util.unmasked_attrs(ch))) for ch in chains]
+                    members = [(ch, at) for ch, at in members if at]
+                    got_m = [(tuple(ch), list(at)) for ch, at in util.class_members(c)]
+                    if got_m != members:
+                        raise differ('util.class_members', c, got_m, members)
+                    inh = [a for ch, at in members if len(ch) > 1 for a in at]
+                    if list(util.inherited_members(c)) != inh:
+                        raise differ('util.inherited_members', c, list(util.inherited_members(c)), inh)
+                    for ch in chains:
+                        masking = {x.name for b in ch[1:] for x in b.contents.values()}
+                        cand = [x for x in ch[0].contents.values() if x.name not in masking]
+                        got_u = list(util.unmasked_attrs(ch))
+                        if [x for x in got_u if x not in cand] or [x for x in cand if r_vis(x) and x not in got_u]:
+                            raise differ('util.unmasked_attrs (masking)', ch, got_u, [x for x in cand if r_vis(x)])
+            except Shape:
+                raise
+            except Exception as e:
+                raise bad('a live function could not be run on the fixture (%s: %s)' % (type(e).__name__, e))
+    # ---- the compact module index: > 50 submodules none of which has submodules
+    try:
+        from twisted.web.template import Tag
+        for n, nested, want_compact in ((50, False, False), (51, False, True), (51, True, False)):
+            s = model.System()
+            s.options.verbosity = -10
+            s.options.privacy = [(PC.PRIVATE, 'big.m03')]
+            b = s.systemBuilder(s)
+            b.addModuleString('"""big"""', 'big', is_package=True)
+            for i in range(n - (1 if nested else 0)):
+                b.addModuleString('"""m"""', 'm%02d' % i, parent_name='big')
+            if nested:
+                b.addModuleString('"""sub"""', 'subp', parent_name='big', is_package=True)
+                b.addModuleString('"""deep"""', 'deep', parent_name='big.subp')
+            b.buildModules()
+            li = summary.moduleSummary(s.allobjects['big'], 'moduleIndex.html')
+            compact = [x for x in find_tag(li, 'li') if 'compact-modules' in words(x.attributes.get('class'))]
+            if bool(compact) != want_compact:
+                raise differ('summary.moduleSummary: compact form with %d submodules (nested=%s)' % (n, nested), 'big', bool(compact), want_compact)
+            if compact:
+                spans = find_tag(compact[0], 'span')
+                hrefs = sorted(a.attributes.get('href') for sp in spans for a in find_tag(sp, 'a'))
+                if hrefs != sorted('big.m%02d.html' % i for i in range(n)):
+                    raise differ('compact module index: links', 'big', hrefs[:3], 'big.mNN.html for every submodule')
+                for sp in spans:
+                    hs = [a.attributes.get('href') for a in find_tag(sp, 'a')]
+                    flags['modsummary_private'].add(('private' in words(sp.attributes.get('class'))) == (hs == ['big.m03.html']))
+    except Shape:
+        raise
+    except Exception as e:
+        raise bad('summary.moduleSummary could not be run on the compact fixture (%s: %s)' % (type(e).__name__, e))
+
+    out: Dict[str, bool] = {}
+    # taglink: measured (True = the href of a hidden target is dropped); must be uniform
+    if len(flags['taglink_drops']) != 1:
+        raise bad('linker.taglink treats hidden targets inconsistently: %s' % sorted(flags['taglink_drops']))
+    out['taglink_drops'] = next(iter(flags['taglink_drops']))
+    for k in ('css_private', 'row_css', 'child_css', 'sidebar_private', 'modsummary_private', 'search_privacy'):
+        if not flags[k]:
+            raise bad('marker %s was not exercised by the fixtures' % k)
+        out[k] = flags[k] == {True}       # the marker is in place iff it agreed on EVERY fixture object
+    return out
+
+
+# =============================================================================== generate
 def generate() -> Dict[str, str]:
-    check_pinned()
-    check_compact_condition()
-    taglink_rest_pinned()
+    beh = behaviour_checks()
     P = 'pydoctor.templatewriter.pages'
     U = 'pydoctor.templatewriter.util'
     S = 'pydoctor.templatewriter.summary'
+    SE = 'pydoctor.templatewriter.search'
     L: List[Tuple[str, str, Tuple[str, bool, bool]]] = []
 
     def add(field: str, src: str, res: Tuple[str, bool, bool]) -> None:
         L.append((field, src, res))
 
-    add('t_children', 'pages.CommonPage.children',
-        expr_listing(single_return(find_def(P, 'CommonPage.children'), 'CommonPage.children'), 'CommonPage.children'))
-    add('t_methods', 'pages.CommonPage.methods',
-        expr_listing(single_return(find_def(P, 'CommonPage.methods'), 'CommonPage.methods'), 'CommonPage.methods'))
-    add('t_pkg_children', 'pages.PackagePage.children -> model.Module.submodules',
-        expr_listing(single_return(find_def(P, 'PackagePage.children'), 'PackagePage.children'), 'PackagePage.children'))
-    add('t_pkg_init', 'pages.PackagePage.packageInitTable',
-        expr_listing(assigned(find_def(P, 'PackagePage.packageInitTable'), 'children', 'PackagePage.packageInitTable'),
-                     'PackagePage.packageInitTable'))
-    add('t_pkg_methods', 'pages.PackagePage.methods',
-        expr_listing(single_return(find_def(P, 'PackagePage.methods'), 'PackagePage.methods'), 'PackagePage.methods'))
+    add('t_children', 'pages.CommonPage.children', returned(P, 'CommonPage.children'))
+    add('t_methods', 'pages.CommonPage.methods', returned(P, 'CommonPage.methods'))
+    add('t_pkg_children', 'pages.PackagePage.children -> model.Module.submodules', returned(P, 'PackagePage.children'))
+    # packageInitTable: the collection handed to ChildTable(...)
+    pit = Fn(P, 'PackagePage.packageInitTable')
+    calls = [c for c in ast.walk(pit.node) if isinstance(c, ast.Call) and call_named('ChildTable')(c)]
+    if len(calls) != 1 or len(calls[0].args) < 3:
+        raise bad('packageInitTable: expected one ChildTable(docgetter, ob, children, loader) call', pit.node, pit.where)
+    add('t_pkg_init', 'pages.PackagePage.packageInitTable', pit.stream_of_expr(calls[0].args[2], pit.node.body).triple())
+    add('t_pkg_methods', 'pages.PackagePage.methods', returned(P, 'PackagePage.methods'))
     add('t_table_rows', 'pages.table.ChildTable.rows',
-        expr_listing(single_return(find_def(P + '.table', 'ChildTable.rows'), 'ChildTable.rows'), 'ChildTable.rows'))
-    add('t_unmasked', 'util.unmasked_attrs',
-        expr_listing(single_return(find_def(U, 'unmasked_attrs'), 'unmasked_attrs'), 'unmasked_attrs'))
-    # sidebar: if inherited: return sorted(gen over inherited_members) else: return sorted(gen over contents)
-    sc = find_def(P + '.sidebar', 'ObjContent._children')
-    ifs = [s for s in sc.body if isinstance(s, ast.If)]
-    if len(ifs) != 1 or ast.unparse(ifs[0].test) != 'inherited':
-        raise bad('ObjContent._children: expected `if inherited: ... else: ...`', sc, 'sidebar')
-    r1 = [s for s in ifs[0].body if isinstance(s, ast.Return)]
-    r2 = [s for s in ifs[0].orelse if isinstance(s, ast.Return)]
-    if len(r1) != 1 or len(r2) != 1:
-        raise bad('ObjContent._children: expected one return per branch', sc, 'sidebar')
-    add('t_sidebar_inherited', 'sidebar.ObjContent._children(inherited=True)', expr_listing(r1[0].value, 'ObjContent._children'))
-    add('t_sidebar_direct', 'sidebar.ObjContent._children(inherited=False)', expr_listing(r2[0].value, 'ObjContent._children'))
-    add('t_modsummary_sub', 'summary.moduleSummary -> model.Module.submodules',
-        expr_listing(assigned(find_def(S, 'moduleSummary'), 'contents', 'moduleSummary'), 'moduleSummary'))
-    mi = find_def(S, 'ModuleIndexPage.stuff')
-    comps = [n for n in ast.walk(mi) if isinstance(n, (ast.ListComp, ast.GeneratorExp))]
-    if len(comps) == 1:
-        add('t_modindex_roots', 'summary.ModuleIndexPage.stuff', comp_listing(comps[0], 'ModuleIndexPage.stuff'))
-    else:
-        add('t_modindex_roots', 'summary.ModuleIndexPage.stuff', for_listing(mi, 'ModuleIndexPage.stuff'))
-    ir = find_def(S, 'IndexPage.roots')
-    comps = [n for n in ast.walk(ir) if isinstance(n, (ast.ListComp, ast.GeneratorExp))]
-    if comps:
-        if len(comps) != 1:
-            raise bad('IndexPage.roots: more than one comprehension', ir, 'summary')
-        add('t_index_roots', 'summary.IndexPage.roots', comp_listing(comps[0], 'IndexPage.roots'))
-    else:
-        add('t_index_roots', 'summary.IndexPage.roots', for_listing(ir, 'IndexPage.roots'))
-    add('t_rootclasses', 'summary.findRootClasses', for_listing(find_def(S, 'findRootClasses'), 'findRootClasses'))
+        Fn(P + '.table', 'ChildTable.rows').stream_feeding_call(call_named('TableRow'), 'TableRow(...)').triple())
+    add('t_unmasked', 'util.unmasked_attrs', returned(U, 'unmasked_attrs'))
+    inh, direct = returned_per_branch(P + '.sidebar', 'ObjContent._children', 'inherited')
+    add('t_sidebar_inherited', 'sidebar.ObjContent._children(inherited=True)', inh)
+    add('t_sidebar_direct', 'sidebar.ObjContent._children(inherited=False)', direct)
+    ms = Fn(S, 'moduleSummary')
+    sub = ms.stream_feeding_call(call_named('moduleSummary'), 'the recursive moduleSummary(...) call')
+    add('t_modsummary_sub', 'summary.moduleSummary -> model.Module.submodules', sub.triple())
+    add('t_modindex_roots', 'summary.ModuleIndexPage.stuff',
+        Fn(S, 'ModuleIndexPage.stuff').stream_feeding_call(call_named('moduleSummary'), 'moduleSummary(...)').triple())
+    add('t_index_roots', 'summary.IndexPage.roots',
+        Fn(S, 'IndexPage.roots').stream_feeding_call(call_named('taglink'), 'taglink(...)').triple())
+    # findRootClasses: everything done with a class of the loop
+    frc = Fn(S, 'findRootClasses')
+    loops = [l for l in frc.node.body if isinstance(l, ast.For)]
+    if len(loops) != 1 or not isinstance(loops[0].target, ast.Name):
+        raise bad('findRootClasses: expected one top-level loop over the classes', frc.node, frc.where)
+    names = frc.aliases_of(loops[0].target.id, loops[0].body)
+    add('t_rootclasses', 'summary.findRootClasses',
+        frc.stream_of_loop(loops[0], lambda st: Fn.mentions(st, names), frc.node.body).triple())
     add('t_subclasses_from', 'summary.subclassesFrom',
-        expr_listing(assigned(find_def(S, 'subclassesFrom'), 'scs', 'subclassesFrom'), 'subclassesFrom'))
-    add('t_nameindex', 'summary.NameIndexPage.__init__', for_listing(find_def(S, 'NameIndexPage.__init__'), 'NameIndexPage.__init__'))
+        Fn(S, 'subclassesFrom').stream_feeding_call(call_named('subclassesFrom'), 'the recursive subclassesFrom(...) call').triple())
+    ni = Fn(S, 'NameIndexPage.__init__')
+    loops = [l for l in ast.walk(ni.node) if isinstance(l, ast.For)]
+    if len(loops) != 1 or not isinstance(loops[0].target, ast.Name):
+        raise bad('NameIndexPage.__init__: expected one loop over the objects', ni.node, ni.where)
+    nm = ni.aliases_of(loops[0].target.id, loops[0].body)
+    add('t_nameindex', 'summary.NameIndexPage.__init__',
+        ni.stream_of_loop(loops[0], lambda st: any(isinstance(c, ast.Call) and Fn.mentions(c, nm) and
+                                                   isinstance(c.func, ast.Attribute) and c.func.attr in ('append', 'add', 'setdefault')
+                                                   for c in ast.walk(st)), ni.node.body).triple())
     add('t_undocced', 'summary.UndocumentedSummaryPage.stuff',
-        expr_listing(assigned(find_def(S, 'UndocumentedSummaryPage.stuff'), 'undoccedpublic', 'UndocumentedSummaryPage.stuff'),
-                     'UndocumentedSummaryPage.stuff'))
-    add('t_alldocs', 'search.get_all_documents_flattenable',
-        expr_listing(single_return(find_def('pydoctor.templatewriter.search', 'get_all_documents_flattenable'),
-                                   'get_all_documents_flattenable'), 'get_all_documents_flattenable'))
-    add('t_corpus', 'search.LunrIndexWriter.get_corpus',
-        expr_listing(single_return(find_def('pydoctor.templatewriter.search', 'LunrIndexWriter.get_corpus'), 'get_corpus'),
-                     'get_corpus'))
-    inv = find_def('pydoctor.sphinx', 'SphinxInventoryWriter._generateContent')
-    rec = [n for n in ast.walk(inv) if isinstance(n, ast.Call) and ast.unparse(n.func) == 'self._generateContent']
-    if len(rec) != 1 or ast.unparse(rec[0].args[0]) != 'obj.contents.values()':
-        raise bad('_generateContent: expected one recursive call on obj.contents.values()', inv, 'sphinx')
-    d, v, s_ = for_listing(inv, 'SphinxInventoryWriter._generateContent')
-    add('t_inventory', 'sphinx.SphinxInventoryWriter._generateContent (recursion on obj.contents.values())', ('DContents', v, s_))
-    wr = find_def('pydoctor.templatewriter.writer', 'TemplateWriter._writeDocsFor')
-    rec = [n for n in ast.walk(wr) if isinstance(n, ast.Call) and ast.unparse(n.func) == 'self._writeDocsFor']
-    if len(rec) != 1 or ast.unparse(rec[0].args[0]) != 'o':
-        raise bad('_writeDocsFor: expected one recursive call', wr, 'writer')
-    add('t_writer', 'writer.TemplateWriter._writeDocsFor', for_listing(wr, 'TemplateWriter._writeDocsFor', top_guard=True))
-    # assembleList: for name in lst: o = system.allobjects.get(name); if o is None or o.isVisible: lst2.append(name)
-    al = find_def(P, 'assembleList')
-    loops = [s for s in al.body if isinstance(s, ast.For)]
-    if len(loops) != 1 or ast.unparse(loops[0].iter) != 'lst':
-        raise bad('assembleList: expected one top-level loop over lst', al, 'pages')
-    ifs2 = [s for s in loops[0].body if isinstance(s, ast.If)]
-    vis = len(ifs2) == 1 and ast.unparse(ifs2[0].test) == 'o is None or o.isVisible' and not ifs2[0].orelse
-    if ifs2 and not vis:
-        raise bad('assembleList: guard %r' % ast.unparse(ifs2[0].test), ifs2[0], 'pages')
-    add('t_assemble', 'pages.assembleList', ('DGiven', vis, False))
-    add('t_overriding', 'util.overriding_subclasses', for_listing_nested(find_def(U, 'overriding_subclasses')))
+        Fn(S, 'UndocumentedSummaryPage.stuff').stream_feeding_call(call_named('taglink'), 'taglink(...)').triple())
+    add('t_alldocs', 'search.get_all_documents_flattenable', returned(SE, 'get_all_documents_flattenable'))
+    add('t_corpus', 'search.LunrIndexWriter.get_corpus', returned(SE, 'LunrIndexWriter.get_corpus'))
+    # inventory: loop over the subjects, recursion on the contents of each
+    inv = Fn('pydoctor.sphinx', 'SphinxInventoryWriter._generateContent')
+    rec = [c for c in ast.walk(inv.node) if isinstance(c, ast.Call) and call_named('_generateContent')(c)]
+    if len(rec) != 1 or not rec[0].args:
+        raise bad('_generateContent: expected one recursive call', inv.node, inv.where)
+    rs = inv.stream_of_expr(rec[0].args[0], inv.node.body)
+    if rs.domain != 'DContents':
+        raise bad('_generateContent recurses on %s, not on the contents of the object' % rs.domain, rec[0], inv.where)
+    st_inv = inv.stream_feeding_call(call_named('_generateLine'), '_generateLine(obj)')
+    add('t_inventory', 'sphinx.SphinxInventoryWriter._generateContent (recursion on obj.contents.values())',
+        ('DContents', st_inv.vis and True, st_inv.nospace))
+    # writer: guard on the parameter + recursion over its contents
+    wr = Fn('pydoctor.templatewriter.writer', 'TemplateWriter._writeDocsFor')
+    param = [p for p in wr.params if p not in ('self', 'cls')][0]
+    rec_w = wr.stream_feeding_call(call_named('_writeDocsFor'), 'the recursive _writeDocsFor(...) call')
+    if rec_w.domain != 'DContents':
+        raise bad('_writeDocsFor recurses over %s' % rec_w.domain, wr.node, wr.where)
+    pg = wr.param_guards(param, lambda st: Fn.mentions(st, {param}))
+    add('t_writer', 'writer.TemplateWriter._writeDocsFor', ('DContents', pg[0] or rec_w.vis, pg[1] or rec_w.nospace))
+    # assembleList: the names that reach taglink / the result
+    al = Fn(P, 'assembleList')
+    loops = [l for l in al.node.body if isinstance(l, ast.For) and isinstance(l.target, ast.Name)
+             and al.stream_of_expr(l.iter, al.node.body).domain == 'DGiven'
+             and ast.unparse(l.iter) in al.params]
+    if len(loops) != 1:
+        raise bad('assembleList: expected one loop over the list of names (found %d)' % len(loops), al.node, al.where)
+    an = al.aliases_of(loops[0].target.id, loops[0].body)
+    add('t_assemble', 'pages.assembleList',
+        al.stream_of_loop(loops[0], lambda st: any(isinstance(c, ast.Call) and Fn.mentions(c, an) and
+                                                   isinstance(c.func, ast.Attribute) and c.func.attr in ('append', 'extend', 'add')
+                                                   for c in ast.walk(st)) or
+                          any(isinstance(c, ast.Call) and call_named('taglink')(c) and Fn.mentions(c, an) for c in ast.walk(st)),
+                          al.node.body).triple())
+    add('t_overriding', 'util.overriding_subclasses',
+        Fn(U, 'overriding_subclasses').stream_feeding_call(call_named('overriding_subclasses'), 'the recursive call').triple())
 
     flags = [
-        ('t_taglink_drops_hidden', 'linker.taglink returns only the label for a target that is not visible', taglink_drops_hidden()),
-        ('t_css_private', "util.css_class adds ' private' when privacyClass is PRIVATE",
-         marks_private(U, 'css_class', ['o.privacyClass is model.PrivacyClass.PRIVATE', 'o.isPrivate'], 'css_class')),
-        ('t_sidebar_private', 'sidebar.ContentItem.class_ adds private when child.isPrivate',
-         marks_private(P + '.sidebar', 'ContentItem.class_', ['self.child.isPrivate',
-                                                              'self.child.privacyClass is model.PrivacyClass.PRIVATE'], 'sidebar item')),
-        ('t_modsummary_private', "summary.moduleSummary sets class_='private' when module.isPrivate",
-         marks_private(S, 'moduleSummary', ['module.isPrivate', 'm.isPrivate'], 'moduleSummary', require_all=True)),
-        ('t_search_privacy', "search documents carry 'privacy': ob.privacyClass.name", search_privacy_field()),
-        ('t_row_uses_css', 'table.TableRow.class_ is util.css_class(self.child)',
-         uses_css_class(P + '.table', 'TableRow.class_', 'self.child')),
-        ('t_child_uses_css', 'FunctionChild.class_ and AttributeChild.class_ are util.css_class(self.ob)',
-         uses_css_class(P + '.functionchild', 'FunctionChild.class_', 'self.ob')
-         and uses_css_class(P + '.attributechild', 'AttributeChild.class_', 'self.ob')),
+        ('t_taglink_drops_hidden', 'linker.taglink renders only the label of a target that is not visible (measured on fixtures)', beh['taglink_drops']),
+        ('t_css_private', "util.css_class has the word `private` exactly for PRIVATE objects (measured)", beh['css_private']),
+        ('t_sidebar_private', 'sidebar.ContentItem.class_ has `private` exactly when child.isPrivate (measured)', beh['sidebar_private']),
+        ('t_modsummary_private', "summary.moduleSummary marks private modules, normal and compact form (measured)", beh['modsummary_private']),
+        ('t_search_privacy', "search documents carry 'privacy': ob.privacyClass.name (measured)", beh['search_privacy']),
+        ('t_row_uses_css', 'table.TableRow.class_ carries the private marker of util.css_class(child), own and inherited rows (measured)', beh['row_css']),
+        ('t_child_uses_css', 'FunctionChild.class_ and AttributeChild.class_ carry the private marker of util.css_class(ob) (measured)', beh['child_css']),
     ]
 
     lines = ['From Coq Require Import List Bool.', 'Import ListNotations.',
@@ -470,8 +889,6 @@ def generate() -> Dict[str, str]:
                     % (field, d, 'true' if v else 'false', 'true' if s_ else 'false', src))
     for field, what, val in flags:
         rows.append('  %s := %s  (* %s *)' % (field, 'true' if val else 'false', what))
-    body = ';\n'.join(rows)
-    # comments must follow the separator, not precede it
     out_rows = []
     for i, r in enumerate(rows):
         code, _, com = r.partition('  (*')
@@ -480,18 +897,6 @@ def generate() -> Dict[str, str]:
     lines.append('\n'.join(out_rows))
     lines.append('|}.')
     return {'Listings.v': '\n'.join(lines) + '\n'}
-
-
-def for_listing_nested(fn: ast.FunctionDef) -> Tuple[str, bool, bool]:
-    """overriding_subclasses: if ...: yield classobj else: for subclass in classobj.subclasses: if subclass.isVisible: yield from ..."""
-    loops = [s for s in ast.walk(fn) if isinstance(s, ast.For)]
-    if len(loops) != 1 or not isinstance(loops[0].target, ast.Name):
-        raise bad('overriding_subclasses: expected one loop', fn, 'util')
-    loop = loops[0]
-    vis = sp = False
-    if len(loop.body) == 1 and isinstance(loop.body[0], ast.If) and not loop.body[0].orelse:
-        vis, sp = atoms_of(loop.body[0].test, loop.target.id, 'overriding_subclasses')
-    return (domain_of(loop.iter, 'overriding_subclasses'), vis, sp)
 
 
 if __name__ == '__main__':
